@@ -58,6 +58,30 @@ func c15Apply(c *Client, st *c15Settings, ct string) {
 	}
 }
 
+// c15ApplyGlobal does the same through the package-level wrappers (client_wrapper.go), which
+// act on the default client; the returned client is a fresh default client installed for
+// this case only.
+func c15ApplyGlobal(st *c15Settings, ct string) (c *Client, restore func()) {
+	old := defaultClient
+	SetDefaultClient(C())
+	switch st.kind {
+	case "list":
+		SetAutoDecodeContentType(st.list...)
+	case "all":
+		SetAutoDecodeAllContentType()
+	case "disable":
+		DisableAutoDecode()
+	case "custom":
+		f := c15CustomFuncs[st.custom]
+		SetAutoDecodeContentTypeFunc(f)
+		st.verdict = f(ct)
+	case "reenable":
+		DisableAutoDecode()
+		EnableAutoDecode()
+	}
+	return defaultClient, func() { SetDefaultClient(old) }
+}
+
 func (st *c15Settings) filterArg() (disable string, filter string) {
 	switch st.kind {
 	case "list":
@@ -121,6 +145,8 @@ type c15Case struct {
 	// encodings a meta tag / BOM of this body may legitimately select (oracle, peek path)
 	cands []encoding.Encoding
 	tag   string
+	// configure through the package-level wrappers acting on the default client
+	global bool
 }
 
 type c15Res struct {
@@ -187,8 +213,15 @@ func c15Run(cs *c15Case) c15Res {
 		cs.term = io.EOF
 	}
 	// ---- implementation
-	c := C()
-	c15Apply(c, &cs.st, cs.ct)
+	var c *Client
+	if cs.global {
+		var restore func()
+		c, restore = c15ApplyGlobal(&cs.st, cs.ct)
+		defer restore()
+	} else {
+		c = C()
+		c15Apply(c, &cs.st, cs.ct)
+	}
 	src := newC15Src(cs.segs, cs.term, cs.lwt)
 	var body io.ReadCloser
 	if cs.st.kind == "direct" {
@@ -470,6 +503,10 @@ func c15GenValid(r *rand.Rand, count func(string)) *c15Case {
 	b := c15MakeBody(r, cs, bodySite, n, declAt)
 	c := &c15Case{body: b.body, tag: "valid/" + cs.label + "/" + site}
 	c.st = c15PickSettings(r)
+	c.global = r.Intn(8) == 0
+	if c.global {
+		count("settings-via-global-wrappers")
+	}
 	// content type
 	ct := verifh.Pick(r, c15ContentTypes)
 	hdrLabel := ""
@@ -686,7 +723,7 @@ func TestVerif_C15_read(t *testing.T) {
 		"site:conflict-header", "site:decoy", "kind:mb", "kind:sb", "kind:u16le", "kind:u16be", "kind:utf8", "kind:utf8bom",
 		"impl-kind:raw", "impl-kind:hdr", "impl-kind:auto", "sniff:found", "sniff:nothing", "impl-term:eof", "impl-term:err",
 		"malformed:random-bytes", "malformed:mutated", "malformed:soup", "segmode:3", "segmode:4",
-		"decoder:hdr-w1252", "decoder:hdr-u16le", "decoder:hdr-tbl", "decoder:sniff-w1252", "decoder:sniff-u16le", "decoder:sniff-u16be", "decoder:sniff-tbl"} {
+		"settings-via-global-wrappers", "decoder:hdr-w1252", "decoder:hdr-u16le", "decoder:hdr-tbl", "decoder:sniff-w1252", "decoder:sniff-u16le", "decoder:sniff-u16be", "decoder:sniff-tbl"} {
 		if cnt[must] == 0 {
 			t.Errorf("generator never reached bucket %q", must)
 		}
